@@ -8,6 +8,7 @@
 #include "pgm/pgm_index_variants.hpp"
 #endif
 #include "vf_search.hpp"
+#include "vf_life.hpp"
 #include <memory>
 
 extern int vf_fake_procs; // returned by the interposed omp_get_num_procs() (static_main.cpp)
@@ -323,45 +324,6 @@ struct NoExtra {
     template<class K> bool tolerate(const std::exception &, const StaticCase<K> &) { return false; }
     template<class K> const char *exception_region(const StaticCase<K> &) { return ""; }
 };
-
-/// 0..3: the object as constructed; 4: copy-constructed, source destroyed; 5: move-constructed, source destroyed;
-/// 6: copy-assigned to a default-constructed object, source destroyed; 7: held in a std::vector that reallocates.
-template<class Idx>
-std::unique_ptr<Idx> object_lifecycle(Ctx &c, std::unique_ptr<Idx> src, int mode) {
-    std::unique_ptr<Idx> out;
-    if constexpr (std::is_copy_constructible_v<Idx> && std::is_move_constructible_v<Idx>) {
-        if (mode == 4) {
-            out.reset(new Idx(*src));
-            c.count("objects_copy_constructed");
-        } else if (mode == 5) {
-            out.reset(new Idx(std::move(*src)));
-            c.count("objects_move_constructed");
-        } else if (mode == 6) {
-            if constexpr (std::is_default_constructible_v<Idx> && std::is_copy_assignable_v<Idx>) {
-                out.reset(new Idx());
-                *out = *src;
-                c.count("objects_copy_assigned");
-            }
-        } else if (mode == 7) {
-            std::vector<Idx> v;
-            v.push_back(std::move(*src));
-            src.reset();
-            for (int i = 0; i < 3; ++i) {
-                v.push_back(v.front()); // copies, and relocates the elements when the capacity is exceeded
-                v.erase(v.begin());
-            }
-            v.reserve(v.capacity() + 5);
-            out.reset(new Idx(std::move(v.back())));
-            c.count("objects_relocated_in_vector");
-        }
-    }
-    if (!out) {
-        c.count("objects_as_constructed");
-        return src;
-    }
-    src.reset(); // the source is gone before the first query
-    return out;
-}
 
 /// The common body: build, query, judge.  `Which` selects the oracle clauses:
 ///   'P' present keys only (C01), 'L' all queries, lower-bound clause (C02), 'B' both + width for every query
